@@ -92,7 +92,7 @@ def dense_values(rng, shape, dt, fill, density=None, nonfinite=False, lo=None, h
     k = dt.kind
     if density is None:
         density = float(rng.choice([0.0, 0.2, 0.5, 0.8, 1.0]))
-    lo = (0 if k in "ub" else -3) if lo is None else lo
+    lo = (0 if k in "ub" else -3) if lo is None else (max(lo, 0) if k in "ub" else lo)
     hi = 3 if hi is None else hi
     v = rng.integers(lo, hi + 1, size=shape)
     if k == "b":
